@@ -83,6 +83,9 @@ pub enum Signal {
     /// products with a filter coefficient are not; gradual underflow keeps the f32 result within
     /// a few 2^-23 of the peak, a flush-to-zero mode does not
     NoiseTiny,
+    /// the Noise sequence scaled by 2^100 (peak 1.3e30): finite and 28 binades below f32::MAX; an
+    /// implementation that pre-scales its f32 tables or data loses that headroom
+    NoiseLoud,
     /// the Noise sequence of channel `ch + offset`, with NaN in every 7th sample of the LAST
     /// channel `last` (only used on multi-channel objects: the other channels must not notice)
     NoisePoisonLast(usize),
@@ -117,6 +120,7 @@ impl Signal {
             Signal::NoiseCh(off) => Signal::Noise.at(ch + off, n),
             Signal::NoiseQuiet => Signal::Noise.at(ch, n) * (2.0f64).powi(-26),
             Signal::NoiseTiny => Signal::Noise.at(ch, n) * (2.0f64).powi(-120),
+            Signal::NoiseLoud => Signal::Noise.at(ch, n) * (2.0f64).powi(100),
             Signal::NoiseSubnormalCh(off) => Signal::Noise.at(ch + off, n) * (2.0f64).powi(-1040),
             Signal::Trivial(off, period) => match (ch + off) % 4 {
                 0 => {
